@@ -94,15 +94,18 @@ theorem iter_terminates (seq : Bytes) (h : seq.length + 1 < USIZE) :
 /-- after the item that is an error the iterator is empty (`next()` on the emptied state is `None`) -/
 theorem iter_fused (seq : Bytes) (e : Err) (h : (iterNext seq).1 = some (.err e)) :
     (iterNext (iterNext seq).2).1 = none := by
-  unfold iterNext at h ⊢
-  cases hc : current seq with
-  | ok cur =>
-    cases hn : containerNext seq with
-    | ok s' => simp only [hc, hn] at h; split at h <;> simp at h
-    | err e' => decide
-    | panic p => decide
-  | err e' => decide
-  | panic p => decide
+  have h2 : (iterNext seq).2 = [] := by
+    unfold iterNext at h ⊢
+    cases hc : current seq with
+    | ok cur =>
+      rw [hc] at h
+      cases hn : containerNext seq with
+      | ok s' => rw [hn] at h; simp only at h; split at h <;> simp at h
+      | err e' => rfl
+      | panic p => rfl
+    | err e' => rfl
+    | panic p => rfl
+  rw [h2, iterNext_nil]
 
 example : elements [0x13, 0x02, 0, 0, 0, 0, 0, 0, 0, 0x14] = [.err .mismatch] := by decide
 example : elements [0x24, 0x01, 0x05, 0x24, 0x02, 0x06, 0x18] =
